@@ -59,6 +59,7 @@ def trace_task(seed):
                     break
         if problems:
             break
+    stats["sim_time"] = h.get("sim_time", 0.0)
     return {"seed": seed, "problems": problems[:1], "stats": stats, "skipped": None, "opts": o}
 
 
@@ -87,6 +88,7 @@ def run(ctx):
     ctx.cov["evaluations"] += len(res)
     ctx.cov["distinct_nontrivial"] += len(sig)
     ctx.cov["trace_entries_checked"] = entries
+    ctx.cov["simulated_seconds_covered"] = round(sum(o["stats"].get("sim_time", 0.0) for o in res), 1)
     ctx.cov["rule"] = ("(a) seeded edit histories with restore faults (dict, pickle, gzip stream, copy, TreeHolder) at arbitrary steps: restored "
                        "tree must have the same canonical form, labels, nodes, per-clone vectors and densities, and in twin mode stay equal to "
                        "the un-restored original under every later operation; (b) simulated runs (iterations 3-12, thin 1-7, burn-in 1-5, chains "
